@@ -16,8 +16,8 @@ CLAIMED = {
          "Exploration. Step-bounded iteration, strictly increasing non-empty spans, gaps == logged skips, end at len, repeated None; root records nothing / no eoi edge after eoi edge; empty-matching definitions are generated in C19's must-reject classes.", "Trusted: the bound 2*len+4 next() calls as termination watchdog.", "7/C03"),
  "C04": ("subjects", "property-based testing on compiled str-mode lexers: char-boundary predicate on every observable span before slice()/remainder() are called and compared",
          "Exploration. Runtime clause: generated Unicode-heavy definitions x valid UTF-8 inputs in 4 configurations, every span (also through spanned()) checked for char boundaries before slice()/remainder() are compared. Acceptance clause (tier G): for every str-mode definition the derive accepts, each pattern's and subpattern's reference DFA is walked in product with a UTF-8 validator; a match while mid-character is a counterexample.", "Trusted: Rust's str::is_char_boundary.", "7/C04"),
- "C05": ("apicheck+subjects", "property-based testing + sanitizer: Source::read model check (proptest, ASan builds), compiled lexers on exactly sized inputs, default-vs-forbid_unsafe build differential on full observation records",
-         "Exploration. read(): Some iff offset+N<=len without overflow (offsets near len, usize::MAX and usize::MAX - address), bytes equal (4 builds + 2 ASan builds). Lexing: exactly sized heap copies of every input and of every prefix of short inputs, no panic in any configuration, two ASan builds; every observation record identical between default and forbid_unsafe builds (tail-call and state-machine); thorough adds release builds of the subjects.", "Trusted: ASan redzones for out-of-allocation reads (sources are exactly sized heap allocations in the read check).", "7/C05"),
+ "C05": ("apicheck+subjects", "property-based testing + sanitizers (ASan builds, Miri as interpreter): Source::read model check (proptest), compiled lexers on exactly sized inputs, default-vs-forbid_unsafe build differential on full observation records",
+         "Exploration. read(): Some iff offset+N<=len without overflow (offsets near len, usize::MAX and usize::MAX - address), bytes equal (4 builds + 2 ASan builds). Lexing: exactly sized heap copies of every input and of every prefix of short inputs, no panic in any configuration, two ASan builds; every observation record identical between default and forbid_unsafe builds (tail-call and state-machine); a sample spread over every subject is re-lexed under Miri (both code generators; no undefined behaviour, observations equal to the native run); thorough adds release builds of the subjects and the read() histories under Miri.", "Trusted: ASan redzones and Miri's allocation tracking for out-of-allocation reads and out-of-range unchecked slices (sources are exactly sized heap allocations).", "7/C05"),
  "C06": ("subjects", "differential testing between builds: identical generated sources compiled with and without state_machine_codegen; full observation records (items, spans, error codes, logs, partial-mode runs) compared byte for byte",
          "Exploration. Equivalence clause decided by build-against-build comparison (items, spans, error codes, skip/callback logs, partial-mode runs) over the covering + random inputs of every subject incl. the callbacks family. Stack clause: child process per (stress definition, input shape, size 16 .. 4*10^6, thorough 16*10^6) on a fixed 256 KiB thread stack in both state-machine builds; death at a larger size after the 16-unit baseline succeeded is the violation (verified to discriminate: the tail-call build dies at 10^5 consecutive skips).", "Trusted: deterministic input generation (same seed => same inputs in both builds).", "7/C06"),
  "C07": ("subjects", "property-based testing on compiled lexers: every split point of every input; partial items must be a leading run of the one-shot items of the input and of generated alternative continuations; position and chunked-history relations",
@@ -33,11 +33,11 @@ CLAIMED = {
  "C12": ("subjects", "differential (twin) property testing on compiled lexers: every str-mode subject is compiled a second time with utf8 = false in the same module; Ok tokens+spans and error byte sets compared on valid UTF-8 inputs",
          "Exploration in 4 configurations: twin-against-twin on valid UTF-8 for every str-mode core and subpattern subject; byte-mode subjects on inputs that are not valid UTF-8 are judged against the reference (Unicode-aware patterns never match across invalid sequences); acceptance clause shared with C04 (tier G, DFA x UTF-8 validator) plus the relation 'accepted in str mode => accepted with utf8 = false'.", "Trusted: the two compiled twins for the first clause; regex-automata DFAs for the byte-mode and acceptance clauses.", "7/C12"),
  "C13": ("subjects", "model-based property testing on compiled lexers: callbacks of every documented return type with pure decision functions; model = documented table applied to the stream of a callback-free twin (one unit variant per leaf) restarted at model positions; callback and error-callback logs compared; Skip-vs-skip-pattern twin",
-         "Exploration in 4 configurations over generated callback definitions (4 attachment forms, bumps, custom error type with From, optional error callback).", "Trusted: the callback-free twin of the same build for pattern selection (agreement with the regex language is C01's business).", "7/C13"),
+         "Exploration in 4 configurations over generated callback definitions (6 attachment forms (function path or inline closure, positional or callback =, closure bodies that start with a parenthesised group or are a block), bumps, custom error type with From, optional error callback).", "Trusted: the callback-free twin of the same build for pattern selection (agreement with the regex language is C01's business).", "7/C13"),
  "C14": ("apicheck", "model-based (stateful) property testing: proptest op histories interpreted against the real Lexer and a reference model in lock-step; next() expected from a fresh lexer over the suffix",
-         "Exploration over histories of {next, bump, clone, morph, spanned, accessors, extras} on fixed definition pairs (str and bytes, ordinary and partial) in 4 builds.", "Trusted: fixed hand-written definitions; fresh-lexer-over-suffix as the meaning of next().", "7/C14"),
- "C15": ("apicheck", "property-based testing with an arithmetic model (checked addition + boundary predicate) of bump, under catch_unwind, in debug/release x default/forbid_unsafe + ASan builds",
-         "Exploration over boundary-focused bump amounts incl. wrap-around, repeated bumps and use after a caught panic.", "Trusted: catch_unwind observes the panic; span() is read before slice()/remainder() are called.", "7/C15"),
+         "Exploration over histories of {next, bump, clone, morph, spanned, accessors, extras} on fixed definition pairs (str and bytes, ordinary and partial) in 6 builds (debug/release x default/forbid_unsafe, plus two builds with the state-machine code generator).", "Trusted: fixed hand-written definitions; fresh-lexer-over-suffix as the meaning of next().", "7/C14"),
+ "C15": ("apicheck", "property-based testing with an arithmetic model (checked addition + boundary predicate) of bump, under catch_unwind, in debug/release x default/forbid_unsafe (+ two state-machine-generator builds) + ASan builds",
+         "Exploration over boundary-focused bump amounts incl. wrap-around, repeated bumps and use after a caught panic; sources include chars with 0x80/0xBF bytes in every encoding position; thorough re-runs a share of the histories under Miri (an invalid str or out-of-range slice is undefined behaviour there).", "Trusted: catch_unwind observes the panic; span() is read before slice()/remainder() are called.", "7/C15"),
  "C16": ("vgraph+cli", "repeated-run differential: generate() and the captured graph on freshly spawned threads and in child processes, logos-cli (both code generators) run repeatedly and --check'ed; byte equality",
          "Exploration; hash seeds are sampled per thread/process.", "Trusted: std RandomState gives fresh keys per thread/process.", "7/C16"),
  "C17": ("vgraph+cli", "property-based + model-based testing of the logos-cli binary: generated enum sources, syn-computed expected enum, generate() for the impl, write/check/tamper histories against a file-state model",
@@ -88,7 +88,7 @@ m = {
   {"name": "vgraph", "path": "harness/vgraph", "serves_properties": ["C01", "C02", "C03", "C08", "C09", "C10", "C11", "C16", "C17", "C18", "C19"], "kind_free_text": "tier G/L/P: proptest-driven in-process checks linking logos-codegen (capture hook) and the reference model; drives logos-cli and rustc"},
   {"name": "subjects", "path": "harness/subjgen + harness/subject-rt (generated crates under work/subjects)", "serves_properties": ["C01", "C02", "C03", "C04", "C05", "C06", "C07", "C12", "C13", "C20"], "kind_free_text": "tier X: generated #[derive(Logos)] subjects compiled in 4 feature configurations, proptest drivers inside the compiled binary, build-against-build dumps"},
   {"name": "fuzz", "path": "fuzz", "serves_properties": ["C01", "C02", "C03", "C04", "C05", "C07", "C12", "C14", "C15", "C19", "C20"], "kind_free_text": "tier F (thorough only): cargo-fuzz / libFuzzer + ASan targets fuzz_lex (compiled subjects), fuzz_graph (fuzzer-decoded definitions, captured graph vs reference), fuzz_api, fuzz_derive with the property oracles inside the target"},
-  {"name": "apicheck", "path": "harness/apicheck", "serves_properties": ["C05", "C14", "C15"], "kind_free_text": "tier A: fixed definitions, proptest histories, debug/release x default/forbid_unsafe + ASan"},
+  {"name": "apicheck", "path": "harness/apicheck", "serves_properties": ["C05", "C14", "C15"], "kind_free_text": "tier A: fixed definitions, proptest histories, debug/release x default/forbid_unsafe, two state-machine-generator builds, ASan, Miri (thorough)"},
  ],
  "checks": checks,
  "not_applicable": na,
